@@ -131,6 +131,8 @@ static const std::uint64_t K_collapse[] = {0x01000000000000AAULL, 0x020000000000
 // three levels with prefixes of different lengths
 static const std::uint64_t K_3lvl[] = {0x0000000000000000ULL, 0x0000000000000001ULL, 0x0000000000010000ULL, 0x0000000000010001ULL, 0x0000000100000000ULL};
 // sparse: differ in the first byte (no prefix at root)
+// an inner node below the root with a long key prefix whose bytes all differ (prefix splits at depth > 0)
+static const std::uint64_t K_deep[] = {0x0111223344556601ULL, 0x0111223344556602ULL, 0x0200000000000000ULL};
 static const std::uint64_t K_sparse[] = {0x0000000000000000ULL, 0x8000000000000000ULL, 0xFF00000000000000ULL};
 
 // value of prelude entry i: byte i+1 repeated vlen(i) times, vlen cycles through 1, 0, 2 (empty values included)
@@ -217,6 +219,23 @@ template <unsigned N, unsigned NDEL> static void big_get() {
   qstate();
   WITNESS();
 }
+// key-prefix splits BELOW the root at three positions of a six-byte prefix (concrete), one collapse back, then ONE symbolic get
+HARNESS(deep_split_get) {
+  static db_t d;
+  olc_thread_init();
+  static const std::uint64_t ks[] = {0x0111223344556601ULL, 0x0111223344556602ULL, 0x0200000000000000ULL,      // root {01 -> I4 with prefix 11 22 33 44 55 66, 02 -> leaf}
+                                     0x0111229900000000ULL, 0x0111223344559900ULL, 0x0111223399000000ULL};    // splits after 2, 5 and 3 prefix bytes
+  for (unsigned i = 0; i < 6; i++) { std::uint8_t v = static_cast<std::uint8_t>(i + 1); PROP(d.insert(ks[i], vv(&v, 1)), "C01: prelude insert of a fresh key succeeds"); }
+  PROP(d.remove(ks[4]), "C01: prelude remove of a present key succeeds");                                      // the two-child node created by the second split collapses again (prefix prepend)
+  const std::uint64_t k = in_u64();
+  int idx = -1; for (unsigned i = 0; i < 6; i++) if (i != 4 && ks[i] == k) idx = static_cast<int>(i);
+  got g = do_get(d, k);
+  PROP(g.found == (idx >= 0), "C01: get finds a key iff it was inserted and not removed (after key-prefix splits and a collapse below the root)");
+  if (g.found) PROP(g.size == 1 && g.b[0] == static_cast<std::uint8_t>(idx + 1), "C01: get yields the bytes of the insert that created the entry");
+  OBSERVE(g.found); OBSERVE(g.b[0]);
+  qstate();
+  WITNESS();
+}
 HARNESS(big_i48) { big_get<20, 0>(); }           // I4 -> I16 -> I48
 HARNESS(big_i256) { big_get<51, 0>(); }          // ... -> I256
 HARNESS(big_shr16) { big_get<17, 1>(); }         // min-size I48 shrinks to I16
@@ -226,4 +245,4 @@ HARNESS(big_shr4) { big_get<18, 14>(); }         // I48 -> I16 -> I4
   HARNESS(ins_##name) { cat_insert(K_##name); } \
   HARNESS(rem_##name) { cat_remove(K_##name); } \
   HARNESS(get_##name) { cat_get(K_##name); }
-CAT(leaf) CAT(i4_2) CAT(i4_3) CAT(i4_4) CAT(i16_5) CAT(2lvl) CAT(collapse) CAT(3lvl) CAT(sparse)
+CAT(leaf) CAT(i4_2) CAT(i4_3) CAT(i4_4) CAT(i16_5) CAT(2lvl) CAT(collapse) CAT(3lvl) CAT(sparse) CAT(deep)
